@@ -79,6 +79,10 @@ impl Tunnel {
             (shutdown.notification_handler(), shutdown.completion_guard())
         };
         tokio::select! {
+            // The notification goes first: over QUIC the listener that goes away on the same
+            // notification takes the multiplexer with it, which makes `listen_inner` fail; a
+            // random choice between the two would end the session without the graceful shutdown.
+            biased;
             x = shutdown_notification.wait() => {
                 match x {
                     Ok(_) => self.downstream.graceful_shutdown().await,
